@@ -169,6 +169,8 @@ class CallMixin:
             if not is_sym(v):
                 return [(st, fractions.Fraction(v))]
             raise Unsupported(f"Fraction({v!r})", node)
+        if cls is reversed and len(args) == 1 and isinstance(args[0], (list, tuple)):
+            return [(st, list(reversed(args[0])))]         # a concrete sequence of (possibly symbolic) elements
         if cls is slice and not kwargs and 1 <= len(args) <= 3:
             a = list(args)
             if len(a) == 1:
@@ -203,6 +205,10 @@ class CallMixin:
                     st.heap.put(fk, ref.z, z3.IntVal(0))
                 elif kind == "bool":
                     st.heap.put(fk, ref.z, z3.BoolVal(False))
+                elif kind == "py" and fd.label == fd.LABEL_REPEATED:
+                    st.ghost[("fld", fk, ref.z.get_id())] = ()        # an empty repeated field (immutable: see append)
+                elif kind in ("seq[ref]", "seq[str]") and fd.label == fd.LABEL_REPEATED:
+                    st.heap.put(fk, ref.z, empty_container(kind))
             for k, v in kwargs.items():
                 self.write_field(st, ref, k, v)
             return [(st, ref)]
@@ -593,6 +599,15 @@ class CallMixin:
                 out.append((s2, Exc(ValueError, "length should not be negative")) if neg
                            else (s2, slice_indices(self_, args[0])))
             return out
+        if kind == "recrep":
+            cur = self.read_field(st, self_.owner, self_.field)[0][1]
+            if not isinstance(cur, tuple):
+                raise Unsupported("append to a repeated field of unknown content", node)
+            add = (args[0],) if name == "append" else tuple(args[0]) if isinstance(args[0], (list, tuple)) else None
+            if add is None:
+                raise Unsupported("extend of a repeated field by a symbolic sequence", node)
+            self.write_field(st, self_.owner, self_.field, cur + add)
+            return [(st, None)]
         if kind == "recslot" and name == "CopyFrom":
             if not isinstance(args[0], SRef):
                 raise Unsupported("CopyFrom of a non-record", node)
